@@ -150,8 +150,10 @@ def h_thinning(save_every, kcount):
     return h
 
 
-def h_chunks(sizes):
-    """successive off-loads of `sizes[i]` rows each through the real write_npz (limit_store mode)"""
+def h_chunks(spec):
+    """successive off-loads through the real write_npz (limit_store mode).  `spec` is a list of (rows, reset_after): the in-loop
+    off-load of TDS.run clears the series afterwards (real DAETimeSeries.reset); the write at the end of a run does not, so a
+    resumed run appends from the same, still filled series"""
     def h(I):
         import andes.variables.dae as DA
         disk = {}
@@ -165,22 +167,23 @@ def h_chunks(sizes):
         npf = NPFile()
         write = pysym.rebind(DA.DAE.write_npz, np=npf, logger=NS(debug=lambda *a, **k: None))
         unpack_np = pysym.rebind(DA.DAETimeSeries.unpack_np, np=pysym.NPXO)
-        ncol = 2
         all_rows, row_id = [], 0
         dae = NS(system=NS(TDS=NS(config=NS(limit_store=1))), _write_append=False)
-        for size in sizes:
-            ts = DA.DAETimeSeries(dae=NS(system=NS(Output=NS(n=0))))
-            if I.symbolic:
-                ts.unpack_np = types.MethodType(unpack_np, ts)
+        ts = DA.DAETimeSeries(dae=NS(system=NS(Output=NS(n=0)), x_name_output=['x'], y_name_output=['y'], z_name=[]))
+        if I.symbolic:
+            ts.unpack_np = types.MethodType(unpack_np, ts)
+        dae.ts = ts
+        for size, reset_after in spec:
             for r in range(size):
                 t = float(row_id)
                 ts._xs[t] = I.arr(f'x_{row_id}')
                 ts._ys[t] = I.arr(f'y_{row_id}')
+                ts._zs[t] = np.zeros(0)
                 all_rows.append((t, ts._xs[t][0], ts._ys[t][0]))
                 row_id += 1
-            dae.ts = ts
             write(dae, 'out.npz')
-            # what TDS.run does after an off-load: dae.ts.reset() -- a new, empty series
+            if reset_after:
+                ts.reset()
         data = disk.get('out.npz')
         n = len(all_rows)
         ok = data is not None and data.shape[0] == n
@@ -189,6 +192,99 @@ def h_chunks(sizes):
             out.append(('rows are in order and each holds its own time and values',
                         AND(*[AND(EQ(data[k, 0], all_rows[k][0], tol=0.0), EQ(data[k, 1], all_rows[k][1], tol=0.0),
                                   EQ(data[k, 2], all_rows[k][2], tol=0.0)) for k in range(n)])))
+        return out
+    return h
+
+
+class FakeFS:
+    """in-memory files for the real writers and loaders (open / np.savetxt / np.loadtxt / np.load)"""
+
+    def __init__(self):
+        self.text, self.arrays = {}, {}
+
+    def open(self, path, mode='r'):
+        import io
+        fs = self
+        if 'w' in mode:
+            class W(io.StringIO):
+                name = path
+
+                def close(w):
+                    fs.text[path] = w.getvalue()
+                    io.StringIO.close(w)
+            return W()
+        if path not in self.text:
+            raise FileNotFoundError(path)
+        return io.StringIO(self.text[path])
+
+    def np(self):
+        fs = self
+
+        class NPF(pysym.NumpyProxyObj):
+            def savetxt(self, fd, body, fmt=None, delimiter=','):
+                fs.arrays[fd.name] = body                      # the number formatting itself is outside the claim
+
+            def loadtxt(self, path, delimiter=',', skiprows=0):
+                assert skiprows == 1
+                return fs.arrays[path]
+
+            def load(self, path):
+                if path not in fs.arrays:
+                    raise FileNotFoundError(path)
+                return fs.arrays[path]
+        return NPF()
+
+
+def h_files(sel, idx_req):
+    """lst file written by the real DAE.write_lst, read by the real TDSData.load_lst; csv written by the real export_csv
+    from symbolic data and read back by the real loader"""
+    def h(I):
+        import andes.variables.dae as DA
+        import andes.plot as PL
+        ss = get_sys(sel)
+        dae = ss.dae
+        fs = FakeFS()
+        dae._lst_written = False
+        quiet = NS(info=lambda *a, **k: None, debug=lambda *a, **k: None, warning=lambda *a, **k: None)
+        pysym.rebind(DA.DAE.write_lst, open=fs.open)(dae, 'case_out.lst')
+        dae._lst_written = False
+        keep = selected(ss, sel)
+        xcols = sorted(a for c, a in keep if c == 'x') if keep is not None else list(range(dae.n))
+        ycols = sorted(a for c, a in keep if c == 'y') if keep is not None else list(range(dae.m))
+        names = ['Time [s]'] + [dae.x_name[a] for a in xcols] + [dae.y_name[a] for a in ycols]
+        ncol = len(names)
+        data = np.empty((2, ncol), dtype=object)
+        for r in range(2):
+            data[r, :] = I.arr(*[f'd{r}_{j}' for j in range(ncol)])
+        td = PL.TDSData.__new__(PL.TDSData)
+        td._lst_file, td._csv_file, td._npy_file = 'case_out.lst', 'case_out.csv', 'case_out.npz'
+        pysym.rebind(PL.TDSData.load_lst, open=fs.open)(td)
+        out = [('the lst file read back names every stored column, in column order', td._uname == names and td._idx == list(range(ncol)) and td.nvars == ncol)]
+        if td._uname != names:
+            return out
+        td._data = data
+        req = [j for j in idx_req if j < ncol] if idx_req else None
+        export = pysym.rebind(PL.TDSData.export_csv, open=fs.open, np=fs.np(), logger=quiet)
+        export(td, path='case_out.csv', idx=req)
+        cols = req if req else list(range(ncol))
+        head = fs.text.get('case_out.csv', '').strip().split(',')
+        body = fs.arrays.get('case_out.csv')
+        ok = body is not None and body.shape == (2, len(cols)) and len(head) == len(cols)
+        out.append(('csv export writes one labelled column per requested variable', ok))
+        if ok:
+            out.append(('each csv column is headed by the name of the variable whose values it holds',
+                        AND(*[AND(*[EQ(body[r, j], data[r, names.index(head[j])], tol=0.0) for r in range(2)]) for j in range(len(cols))])
+                        if all(hd in names for hd in head) else False))
+            out.append(('the csv holds exactly the requested variables', sorted(head) == sorted(names[j] for j in cols)))
+            if req is None:
+                # read back by the loader (no npy/npz next to it): legacy csv path
+                td2 = PL.TDSData.__new__(PL.TDSData)
+                td2._lst_file, td2._csv_file, td2._npy_file = 'case_out.lst', 'case_out.csv', 'missing.npy'
+                pysym.rebind(PL.TDSData.load_lst, open=fs.open)(td2)
+                pysym.rebind(PL.TDSData.load_npy_or_csv, np=fs.np())(td2)
+                got = td2.get_values(list(range(ncol)))
+                out.append(('data read back from the csv are the exported values under the same names',
+                            td2.get_header(list(range(ncol))) == names and AND(*[EQ(got[r, j], data[r, j], tol=0.0) for r in range(2) for j in range(ncol)])))
         return out
     return h
 
@@ -202,6 +298,8 @@ def job(spec):
                      region=lambda v, c: ('device-subset query on partially stored variable: ' if 'not stored' in c or "for device #" in c else '') + c.split(' of step')[0])
     if kind == 'thin':
         return H.run(f'TDS.run storing branch [save_every={arg[0]}, step {arg[1]}]', h_thinning(*arg), max_paths=4000, region=lambda v, c: c.split(' with ')[0])
+    if kind == 'files':
+        return H.run(f'write_lst -> load_lst -> export_csv -> loader [Output: {arg[0]}, columns {arg[1]}]', h_files(*arg), region=lambda v, c: c)
     if kind == 'chunks':
         return H.run(f'DAE.write_npz chunks {arg}', h_chunks(arg), region=lambda v, c: c)
 
@@ -215,16 +313,21 @@ def main():
     import andes.system as SY
     import andes.models.misc.output as OU
     import andes.routines.tds as TD
+    import andes.plot as PL
     ck.encodes(DA.DAE.store, DA.DAETimeSeries.unpack_np, DA.DAETimeSeries.get_data, DA.DAETimeSeries._access_array, DA.DAE.write_npz,
-               SY.System.set_output_subidx, OU.Output.to_output_addr, OU.Output.in1d, TD.TDS.run, TD.TDS.save_output)
+               SY.System.set_output_subidx, OU.Output.to_output_addr, OU.Output.in1d, TD.TDS.run, TD.TDS.save_output, DA.DAE.write_lst, PL.TDSData.load_lst,
+               PL.TDSData.export_csv, PL.TDSData.get_header, PL.TDSData.get_values, PL.TDSData.load_npy_or_csv)
     thorough = core.tier() == 'thorough'
     ck.bound(steps=3, system='3-bus, GENCLS x3, TGOV1 x2', selections=list(OUTPUTS), save_every='0..3, step numbers 0..3', chunks='<= 3 off-loads of <= 2 rows')
-    ck.stub('numpy.zeros allocates object arrays in exploration (unpack_np, get_data)', 'np.savez_compressed / np.load -> in-memory store',
+    ck.stub('numpy.zeros allocates object arrays in exploration (unpack_np, get_data)', 'np.savez_compressed / np.load / np.savetxt / np.loadtxt / open -> in-memory files',
             'loop-body stubs of C06 (itm_step, progress bar)')
     ck.assume('stored values are non-zero (the all-zero test of _access_array is then decided without forking)', 'tag flow is structural: the solver decides equality of distinct symbols')
-    ck.out('npz / lst / csv files, the plotting loader (TDSData), replay from csv -- file I/O, not encodable', 'store_z/f/h/i arrays')
+    ck.out('number formatting of np.savetxt / parsing of np.loadtxt, the compressed npz container, TimeSeries replay from csv, plotting', 'store_z/f/h/i arrays')
     jobs = [('store', s) for s in OUTPUTS] + [('thin', (s, k)) for s in (0, 1, 2, 3) for k in ((0, 1, 2, 3) if thorough else (0, 1, 2))]
-    jobs += [('chunks', c) for c in ((2,), (2, 1), (1, 2, 2))]
+    R, K = True, False      # cleared after the off-load (in-loop) / kept (write at the end of a run, then resumed)
+    jobs += [('chunks', c) for c in (((2, R),), ((2, R), (1, R)), ((1, R), (2, R), (2, R)), ((2, K), (1, K)), ((1, K), (2, R), (1, K), (1, K)),
+                                     ((2, R), (0, R), (1, K), (0, K), (2, K)))]
+    jobs += [('files', (s, cols)) for s in OUTPUTS for cols in (None, (3, 1), (2, 0, 4))]
     ck.merge(core.pmap(job, jobs))
     ck.sample({'store': 'x{step}_{slot}, y{step}_{slot} symbols; Output selections: ' + ', '.join(OUTPUTS)})
     ck.finish()
